@@ -5,6 +5,7 @@ import FitProps.Go2LeanLemmas
 Agreement of `BaseType.String()` / `FromString` GENERATED from profile/basetype/basetype.go with the name table of the CSV
 model (`Fit.Gen.Csv.baseTypeNames`, which the harness regenerates by CALLING `String()` on the compiled package).
 -/
+set_option linter.unusedSimpArgs false  -- spare lemmas keep the proofs stable under harmless rewrites of the source
 namespace Fit.Go2Lean
 
 /-- `String()` and `FromString` are inverse on the 17 names, and these are the names the CSV model uses -/
